@@ -115,6 +115,18 @@ var designated = map[string][]string{
 	"old_primary_kept_on_equal_id": {
 		"Election - Sending same election ID from two clients",
 	},
+	// Get without one table: the tests that ask for an entry of that table, in particular the chain tests, which
+	// ask for group 1 AND next-hop 1 (equal numbers in different tables)
+	"stale_get_nh_table": {
+		"Get for installed NH - RIB ACK",
+		"Get for installed chain of entries - RIB ACK",
+		"Get for installed chain of entries - FIB ACK",
+	},
+	"stale_get_nhg_table": {
+		"Get for installed NHG - RIB ACK",
+		"Get for installed chain of entries - RIB ACK",
+		"Get for installed chain of entries - FIB ACK",
+	},
 }
 
 // controls names, for each fault, tests about the same requirement that the fault must NOT break (they are run and
@@ -126,6 +138,8 @@ var controls = map[string][]string{
 	"stale_get_one_table_only":        {"Get for installed NH - RIB ACK"},
 	"ignore_flush_named_only":         {"Flush of all entries in default NI by elected master"},
 	"old_primary_kept_on_equal_id":    {"Election - Unannounced master operations are rejected"},
+	"stale_get_nh_table":              {"Get for installed NHG - RIB ACK"},
+	"stale_get_nhg_table":             {"Get for installed NH - RIB ACK"},
 }
 
 // extraDesignated is added in the thorough tier (tests that end in the client's one-minute wait).
@@ -139,6 +153,14 @@ var extraDesignated = map[string][]string{
 	"omit_fib_for_deletes_only": {
 		"Idempotent Delete entry - FIB ACK",
 		"Delete NH entry successfully - FIB ACK",
+	},
+	"stale_get_nh_table": {
+		"Get for installed NH - FIB ACK",
+		"Flush to specific network instance is honoured", // counts the entries of the VRF
+	},
+	"stale_get_nhg_table": {
+		"Get for installed NHG - FIB ACK",
+		"Flush to specific network instance is honoured",
 	},
 }
 
@@ -159,6 +181,8 @@ var transcribed = map[string]int{
 	"Flush to specific network instance is honoured":                     12,
 	"Election - Lower election ID from new client":                       13,
 	"Election - Decrementing election ID is ignored":                     14,
+	"Get for installed NHG - RIB ACK":                                    15,
+	"Get for installed chain of entries - RIB ACK":                       16,
 }
 
 func transcribedNames() []string {
